@@ -105,3 +105,19 @@ def ensure_coq(clean=False, timeout=3000):
     elif os.path.exists(stamp):
         os.remove(stamp)
     return dict(ok=ok, log=log, rebuilt=True, seconds=time.time() - t0)
+
+def coqchk(pid, timeout=3000):
+    """independent re-check of the compiled property file and everything it depends on (thorough tier); cached per state of the sources"""
+    vo = os.path.join(VERIF, "coq", "theories", "Props", pid + ".vo")
+    if not os.path.exists(vo): return dict(ran=False, why="no Props/%s.vo" % pid)
+    cache = os.path.join(CACHE, "coqchk-%s-%s.json" % (pid, coq_hash()))
+    import json
+    if os.path.exists(cache): return json.load(open(cache))
+    t0 = time.time()
+    p = subprocess.run(["coqchk", "-silent", "-o", "-Q", "theories", "HP", "HP.Props." + pid], cwd=os.path.join(VERIF, "coq"),
+                       stdout=subprocess.PIPE, stderr=subprocess.STDOUT, timeout=timeout)
+    out = p.stdout.decode(errors="replace")
+    res = dict(ran=True, ok=p.returncode == 0, seconds=round(time.time() - t0, 1), output_tail=out[-3000:])
+    os.makedirs(CACHE, exist_ok=True)
+    json.dump(res, open(cache, "w"))
+    return res
